@@ -110,8 +110,40 @@ fn j_entry(e: &Entry<TypeConfig>) -> J {
 fn j_entries(es: &[Entry<TypeConfig>]) -> J {
     J::Array(es.iter().map(j_entry).collect())
 }
+/// Field-by-field rendering of the replicated state (deliberately not through `Serialize`, so that the
+/// observation does not depend on the serde attributes the snapshot format depends on).
 fn j_state(s: &CoordinatorState) -> J {
-    serde_json::to_value(s).unwrap()
+    let mut workers = serde_json::Map::new();
+    for (k, w) in &s.workers {
+        workers.insert(k.clone(), json!({"id": w.id, "address": w.address, "api_key": w.api_key, "status": w.status,
+            "cpu_cores": w.cpu_cores, "pipelines_running": w.pipelines_running, "max_pipelines": w.max_pipelines,
+            "assigned_pipelines": w.assigned_pipelines, "events_processed": w.events_processed}));
+    }
+    let mut connectors = serde_json::Map::new();
+    for (k, c) in &s.connectors {
+        let mut params = serde_json::Map::new();
+        for (pk, pv) in &c.params {
+            params.insert(pk.clone(), J::String(pv.clone()));
+        }
+        connectors.insert(k.clone(), json!({"name": c.name, "connector_type": c.connector_type, "params": params, "description": c.description}));
+    }
+    let mut models = serde_json::Map::new();
+    for (k, m) in &s.models {
+        models.insert(k.clone(), json!({"name": m.name, "s3_key": m.s3_key, "format": m.format, "inputs": m.inputs, "outputs": m.outputs,
+            "size_bytes": m.size_bytes, "uploaded_at": m.uploaded_at, "description": m.description}));
+    }
+    let groups: serde_json::Map<String, J> = s.pipeline_groups.iter().map(|(k, v)| (k.clone(), v.clone())).collect();
+    let migs: serde_json::Map<String, J> = s.active_migrations.iter().map(|(k, v)| (k.clone(), v.clone())).collect();
+    json!({"workers": workers, "pipeline_groups": groups, "connectors": connectors, "active_migrations": migs,
+           "scaling_policy": s.scaling_policy, "models": models})
+}
+
+/// The CoordinatorState a receiver would get out of serialized snapshot data.
+fn snap_state(data: &J) -> J {
+    match serde_json::from_value::<CoordinatorState>(data["state"].clone()) {
+        Ok(st) => j_state(&st),
+        Err(e) => json!({ "undecodable": e.to_string() }),
+    }
 }
 
 fn err_str(e: StorageError<NodeId>) -> String {
@@ -159,7 +191,7 @@ async fn step<S: RaftStorage<TypeConfig>>(s: &mut S, op: &J) -> Result<J, String
             let snap = s.get_snapshot_builder().await.build_snapshot().await.map_err(err_str)?;
             let data: J = serde_json::from_slice(snap.snapshot.get_ref()).unwrap();
             Ok(json!({"last": j_ologid(&snap.meta.last_log_id), "mem": j_smem(&snap.meta.last_membership),
-                      "id": snap.meta.snapshot_id, "state": data["state"].clone()}))
+                      "id": snap.meta.snapshot_id, "state": snap_state(&data)}))
         }
         "install" => {
             let snap = leader_snapshot(entries(&op[1])).await;
@@ -197,7 +229,7 @@ async fn observe<S: RaftStorage<TypeConfig>>(s: &mut S, shared: &SharedCoordinat
         "snap": snap.map(|sn| {
             let data: J = serde_json::from_slice(sn.snapshot.get_ref()).unwrap_or(J::Null);
             json!({"last": j_ologid(&sn.meta.last_log_id), "mem": j_smem(&sn.meta.last_membership), "id": sn.meta.snapshot_id,
-                   "state": data["state"].clone()})
+                   "state": snap_state(&data)})
         }),
         "state": j_state(&st),
     }))
